@@ -55,6 +55,7 @@ CONSTANTS
   MaxFail = 0
   AllowOk = TRUE
   StopInRetry = TRUE
+  Relay = %(relay)s
   RecordHist = FALSE
 INVARIANTS TypeOK InOrderNoGapNoDup OnePerHeader ClosesOnlyWhen
 POSTCONDITION Accepted
@@ -93,7 +94,7 @@ def _selftest(ctx, path):
         p = os.path.join(ctx.work, "selftest_%s.ndjson" % name)
         open(p, "w").write("\n".join(mod) + "\n")
         cfg = os.path.join(ctx.work, "selftest_%s.cfg" % name)
-        open(cfg, "w").write(TRACE_CFG % {"path": p})
+        open(cfg, "w").write(TRACE_CFG % {"path": p, "relay": "FALSE"})
         r = vlib.run_tlc(os.path.join(vlib.VERIF, "spec", "blob", "BlobSubTrace.tla"), cfg, ctx.work, workers=1,
                          timeout=600, deadlock=False, heap="2g")
         rejected = done and (r.violated is not None or not r.ok)
@@ -106,7 +107,8 @@ def _selftest(ctx, path):
 
 def run(ctx):
     quick = ctx.quick
-    ctx.assume("the header feed is an unbuffered channel delivering consecutive heights (as nodebuilder/header Service.Subscribe does)")
+    ctx.assume("the header feed is an unbuffered channel delivering consecutive heights; part of the scenarios run the real "
+               "nodebuilder/header Service.Subscribe relay over a scripted gossip subscription (verif-tagged constructor)")
     ctx.assume("a retrieval attempt either returns the namespace data of the block or an error; it does not block for ever")
     ctx.assume("small scope: 32 blocks, 2 concurrent subscriptions on different namespaces")
 
@@ -119,6 +121,9 @@ def run(ctx):
                                     "ConsumerSeesClose", "CancelUser", "StopService", "CloseFeed"])
     ctx.tlc(SPEC, "blob/BlobSub_live.cfg", workers=4, timeout=900, deadlock=False)
     ctx.tlc(SPEC, "blob/BlobSub_allfail.cfg", workers=4, timeout=900, deadlock=False)
+    # the node's wiring: the feed is the relay of nodebuilder/header Service.Subscribe
+    ctx.tlc(SPEC, "blob/BlobSub_relay.cfg", workers=min(8, vlib.NCPU), timeout=900, deadlock=False)
+    ctx.tlc(SPEC, "blob/BlobSub_relay_live.cfg", workers=4, timeout=900, deadlock=False)
     ctx.cover(exhaustive=True)
 
     scripts = []
@@ -174,7 +179,8 @@ def run(ctx):
             "ended_by_cancel", "ended_by_stop", "ended_by_feed_close", "ended_by_overflow", "attempts_while_ending",
             "headers_taken_while_ending", "consumed_while_running", "scenarios_two_subscriptions",
             "steps_applied_cex_orig", "steps_applied_tlc", "scenarios_systematic", "scenarios_streak",
-            "streak_closed_within_bound", "scenarios_absent", "scenarios_overlap",
+            "streak_closed_within_bound", "scenarios_absent", "scenarios_overlap", "scenarios_relay",
+            "ended_by_feed_error_through_relay", "relay_gossip_subscription_cancelled",
             "overflow_header_absent_outside_every_row_range", "overflow_header_absent_inside_a_row_range",
             "responses_for_blocks_outside_every_row_range", "responses_for_blocks_absent_inside_a_row_range"]
     missing = [k for k in need if c.get(k, 0) <= 0]
@@ -190,7 +196,7 @@ def run(ctx):
         return
     cfg = os.path.join(ctx.work, "BlobSubTrace.cfg")
     with open(cfg, "w") as f:
-        f.write(TRACE_CFG % {"path": path})
+        f.write(TRACE_CFG % {"path": path, "relay": "FALSE"})
     t = ctx.tlc("blob/BlobSubTrace.tla", cfg, must_pass=False, workers=1, timeout=1200, deadlock=False)
     if t.ok and not t.violated:
         ctx.cover(traces_validated_against_impl=summ["traces"])
@@ -202,6 +208,24 @@ def run(ctx):
     elif t.violated:
         ctx.inconclusive("an invariant (%s) fails on a state matched to a recorded stream although the monitors on the "
                          "observed behaviour did not fire (log %s)" % (t.violated, t.log_path))
+    # streams recorded through the real relay: the same trace specification with Relay = TRUE
+    rpath, rn = summ.get("trace_file_relay"), summ.get("traces_relay", 0)
+    if not rpath or not rn:
+        ctx.inconclusive("the driver recorded no stream through the header-service relay")
+    else:
+        rcfg = os.path.join(ctx.work, "BlobSubTraceRelay.cfg")
+        with open(rcfg, "w") as f:
+            f.write(TRACE_CFG % {"path": rpath, "relay": "TRUE"})
+        tr = ctx.tlc("blob/BlobSubTrace.tla", rcfg, must_pass=False, workers=1, timeout=1200, deadlock=False)
+        if tr.ok and not tr.violated:
+            ctx.cover(traces_validated_against_impl=rn)
+        elif tr.violated == "postcondition":
+            stuck = [l for l in tr.stdout.splitlines() if "STUCK" in l or l.startswith("   ")][:5]
+            ctx.inconclusive("conformance drift: BlobSubTrace.tla (Relay = TRUE) cannot match the streams recorded through the "
+                             "header-service relay (%s) (log %s)" % (" ".join(x.strip() for x in stuck)[:400], tr.log_path))
+        elif tr.violated:
+            ctx.inconclusive("an invariant (%s) fails on a state matched to a stream recorded through the relay (log %s)" % (
+                tr.violated, tr.log_path))
     if not quick:
         _selftest(ctx, path)
     try:
